@@ -57,6 +57,14 @@ def make_rec(log):
             if self.spawn is not None and self.model.systems.timestep == SPAWN_AT \
                     and self.model.systems[self.spawn.id] is None:
                 self.model.systems.add_system(self.spawn)
+
+    class FalsyRec(Rec):
+        """A system object that is falsy (e.g. a collector whose __len__ is its number of buffered records)."""
+
+        def __len__(self):
+            return 0
+
+    Rec.Falsy = FalsyRec
     return Rec
 
 
@@ -146,7 +154,8 @@ class Multi:
         w.model = Core.Model(seed=1)
         w.log = []
         Rec = make_rec(w.log)
-        w.objs = {k: Rec(k, w.model, prio, start, end, freq, sid) for k, sid, prio, start, end, freq in POOL}
+        w.objs = {k: (Rec.Falsy if k in ('w0', 'w5') else Rec)(k, w.model, prio, start, end, freq, sid)
+                  for k, sid, prio, start, end, freq in POOL}
         w.objs['sp'].spawn = w.objs['w5']
         w.ref = []        # registered keys in registration order
         w.t = 0
